@@ -56,9 +56,8 @@ func (b *exampleBuilder) buildExampleForObjectNode(node *ischema.ObjectNode) ([]
 	defer exampleBufferPool.Put(buf)
 
 	buf.WriteByte('{')
-	children := node.Children()
-	length := len(children)
-	for i, childNode := range children {
+	first := true
+	for i, childNode := range node.Children() {
 		ex, err := b.Build(childNode)
 		if err != nil {
 			return nil, err
@@ -73,13 +72,17 @@ func (b *exampleBuilder) buildExampleForObjectNode(node *ischema.ObjectNode) ([]
 			return nil, err
 		}
 
+		// The separator goes before every member but the first one that is
+		// written: a skipped last member must not leave a trailing comma.
+		if !first {
+			buf.WriteByte(',')
+		}
+		first = false
+
 		buf.WriteByte('"')
 		buf.Write(k)
 		buf.WriteString(`":`)
 		buf.Write(ex)
-		if i+1 != length {
-			buf.WriteByte(',')
-		}
 	}
 	buf.WriteByte('}')
 	// The buffer goes back to the pool: hand out a copy, not its storage.
@@ -112,9 +115,8 @@ func (b *exampleBuilder) buildExampleForArrayNode(node *ischema.ArrayNode) ([]by
 	defer exampleBufferPool.Put(buf)
 
 	buf.WriteByte('[')
-	children := node.Children()
-	length := len(children)
-	for i, childNode := range children {
+	first := true
+	for _, childNode := range node.Children() {
 		ex, err := b.Build(childNode)
 		if err != nil {
 			return nil, err
@@ -124,10 +126,12 @@ func (b *exampleBuilder) buildExampleForArrayNode(node *ischema.ArrayNode) ([]by
 			continue
 		}
 
-		buf.Write(ex)
-		if i+1 != length {
+		if !first {
 			buf.WriteByte(',')
 		}
+		first = false
+
+		buf.Write(ex)
 	}
 	buf.WriteByte(']')
 	// The buffer goes back to the pool: hand out a copy, not its storage.
